@@ -43,7 +43,8 @@ Inductive fclass := FPlain | FGz | FCur | FNone.
 Definition classify_entry (c : config) (e : entry) : fclass :=
   let '(n, k, _) := e in
   match c_rot c with
-  | None => FNone
+  | None => (* without rotation: the one log file *)
+            if (k =? 0) && beq n (with_suffix (c_spec c) (fixed_name_part (c_spec c) [])) then FPlain else FNone
   | Some (_, nam, _) =>
     match full_infix (c_spec c) (fixed_name_part (c_spec c) []) n with
     | None => FNone
